@@ -14,7 +14,7 @@ SPEC = {
                   "The model is tied to CAPool.VerifyCertificate / VerifyCachedCertificate / AddCA by correspondence on real pools of 28 CAs "
                   "(v1/v2, Curve25519/P256, open/constrained/expired/sub-second) and real signed leaves crossing every constraint, evaluated at "
                   "the validity boundaries, with fingerprint / twin-fingerprint blocklisting and reloaded pools between full and cached check; "
-                  "the documented rule and 'cached = full' are evaluated on every real verdict.",
+                  "the documented rule and 'cached = full' are evaluated on every real verdict. Pools with a verification history (a genuine leaf verified full and cached, then certificates that keep its signature bytes and issuer but change one identity field, and other genuine leaves, all on the SAME pool object) are checked for history independence: every verdict equals the documented rule and the verdict of a pool built afresh (C01_history_independent on the model side).",
     "level_note": "Trusted: Coq kernel; the hand-written model (mirrors the order of checks of CAPool.verify, checkCAConstraints, Expired, "
                   "netip.Prefix.Contains); the harness that translates real certificates to model records through the public Certificate interface; "
                   "SHA-256 and the signature primitives are oracles (real fingerprints and real CheckSignature verdicts are supplied as data). "
